@@ -20,6 +20,7 @@ structure CT where
   host : Option String := none  -- the buyer's pool host when the payload is a valid URL for the seller
   hr : Nat := 0
   liveSince : Option Int := none   -- since when (continuously) purchased ∧ unexpired ∧ valid payload ∧ node up
+  future : Option (Int × Nat) := none   -- terms waiting for the close (length, speed)
 
 structure St where
   now : Int := 0
@@ -52,12 +53,25 @@ def applyOp (st : St) (op : List String) : St :=
   | ["restart"] => refresh { st with nodeUp := true, cs := st.cs.map fun c => { c with liveSince := none } }
   | "purchased" :: c :: rest =>
     match st.cs.find? (·.name = c) with
-    | some ct => refresh (upd st { ct with purchased := true, startedAt := st.now, len := parseInt (kvGet rest "len"),
-                                           host := hostOf (kvGet rest "payload"), hr := parseNat (kvGet rest "hr"), liveSince := none })
+    | some ct => refresh (upd st { ct with purchased := true, startedAt := st.now,
+                                           len := if kvGet rest "len" = "" then ct.len else parseInt (kvGet rest "len"),
+                                           host := hostOf (kvGet rest "payload"),
+                                           hr := if kvGet rest "hr" = "" then ct.hr else parseNat (kvGet rest "hr"), liveSince := none })
     | none => st
   | ["closed", c] =>
     match st.cs.find? (·.name = c) with
-    | some ct => refresh (upd st { ct with purchased := false, host := none })
+    | some ct =>
+      let ct := match ct.future with
+        | some (l, sp) => { ct with len := l, hr := sp, future := none }
+        | none => ct
+      refresh (upd st { ct with purchased := false, host := none })
+    | none => st
+  | "termsupdate" :: c :: rest =>
+    match st.cs.find? (·.name = c) with
+    | some ct =>
+      let l := if kvGet rest "len" = "" then ct.len else parseInt (kvGet rest "len")
+      let sp := if kvGet rest "hr" = "" then ct.hr else parseNat (kvGet rest "hr")
+      if ct.purchased then upd st { ct with future := some (l, sp) } else upd st { ct with len := l, hr := sp }
     | none => st
   | "destupdate" :: c :: rest =>
     match st.cs.find? (·.name = c) with
@@ -110,7 +124,18 @@ def mon (st : St) (op : List String) (outs : List (List String)) : St × List St
         some s!"PROP contract {c.name} has been purchased, unexpired and decryptable for {after.now - t} s with hashrate available and no miner is directed to it"
       else none
     | none => none
-  (after, s1.take 1 ++ s2 ++ s3)
+  -- S4: a contract that is being fulfilled is fulfilled under the terms of its purchase: the rate and length the
+  -- watcher works with are the chain's for this purchase, whatever terms updates arrived meanwhile
+  let s4 := outs.filterMap fun o => match o with
+    | "ctr" :: c :: rest =>
+      if kvGet rest "run" ≠ "1" ∨ kvGet rest "hr" = "" then none else
+      let okT (s : St) : Bool := match s.cs.find? (·.name = c) with
+        | some ct => !ct.purchased || (kvGet rest "hr" == toString ct.hr && kvGet rest "len" == toString ct.len)
+        | none => true
+      if okT before || okT after then none
+      else some s!"PROP contract {c} is fulfilled at {kvGet rest "hr"} GH/s for {kvGet rest "len"} s: not the terms of its purchase on chain"
+    | _ => none
+  (after, s1.take 1 ++ s2 ++ s3 ++ s4.take 1)
 
 def monitor : Monitor := { σ := St, init := {}, step := mon }
 
